@@ -80,7 +80,7 @@ func c06Build() []*c06Base {
 		var tgRows [][]tag
 		ckptAfter := -1
 		next := int32(100)
-		sch := vrt.Run(nil, nil, func() {
+		sch := vrt.Run(nil, func(s *vrt.Sched) { s.NoForcedTimers = true }, func() {
 			w, obs := world.Start(world.Config{BackgroundSync: true, WALRotateInterval: 100})
 			if !obs.OK() {
 				panic("c06 base: " + obs.String())
